@@ -193,11 +193,25 @@ def main():
     # the analyzer, translated statement by statement: src/analyze.rs -> GeneratedAnalyze.lean (proved equal to the
     # hand-written model in Proofs/C13c.lean). A construct outside the translator's subset is a broken tie.
     import subprocess
-    r = subprocess.run([sys.executable, os.path.join(os.path.dirname(os.path.abspath(__file__)), 'rs2lean_analyze.py')],
+    here = os.path.dirname(os.path.abspath(__file__))
+    gen = os.path.join(os.path.dirname(here), 'lean', 'FancyModel', 'GeneratedAnalyze.lean')
+    r = subprocess.run([sys.executable, os.path.join(here, 'rs2lean_analyze.py'), os.path.join(REPO, 'src', 'analyze.rs')],
                        stdout=subprocess.PIPE, stderr=subprocess.STDOUT, text=True)
     print(r.stdout.strip())
     if r.returncode != 0:
-        fail('rs2lean_analyze.py failed (exit %d): src/analyze.rs is not translated' % r.returncode)
+        # The source uses a construct outside the translator's subset. That concerns the one proof that reads the
+        # translation (Proofs/C13c.lean), not every property: leave a file that does not compile and says why, so that
+        # C13's proof obligation is reported broken (and its search for a failing input goes on), and carry on.
+        msg = r.stdout.strip().replace('-/', '- /')[-1500:]
+        stub = ('/- tools/rs2lean_analyze.py could not translate src/analyze.rs (exit %d):\n%s\n-/\n'
+                'namespace Fancy.GenAnalyze\n'
+                'theorem translator_could_not_read_analyze_rs : False := by\n'
+                '  exact translation_failed   -- deliberately unresolved: see the comment above\n'
+                'end Fancy.GenAnalyze\n') % (r.returncode, msg)
+        old = open(gen).read() if os.path.exists(gen) else ''
+        if old != stub:
+            open(gen, 'w').write(stub)
+        print('extract.py: src/analyze.rs is not translated; GeneratedAnalyze.lean now holds a failing stub (Proofs/C13c will not build)')
 
 
 if __name__ == '__main__':
